@@ -56,3 +56,19 @@ pub fn thread_namespace() -> (r: Option<String>) { unimplemented!() }
 
 #[verifier::external_body]
 pub fn env_var(name: &str) -> (r: Result<String, ()>) { unimplemented!() }
+
+// PathBuf::ends_with(component): true iff the last component equals it (A-PATH, single normal component)
+#[verifier::external_body]
+pub fn pathbuf_ends_with(p: &std::path::PathBuf, c: &String) -> (r: bool)
+    ensures safe_component(c@) ==> r == (path_view(p).len() >= 1 && path_view(p).last() == c@)
+{
+    p.ends_with(c)
+}
+
+pub trait VxOptString { fn vx_as_deref<'a>(&'a self) -> (r: Option<&'a str>); }
+impl VxOptString for Option<String> {
+    #[verifier::external_body]
+    fn vx_as_deref<'a>(&'a self) -> (r: Option<&'a str>)
+        ensures match *self { Some(s) => r matches Some(t) && t@ == s@, None => r is None }
+    { self.as_deref() }
+}
